@@ -97,6 +97,44 @@ def run(ck, facts):
             w = want(prim)
             okw = got is not None and got[1] == w[1] and ((got[0] == "float") == (w[0] == "float"))
             ck.expect(okw, "R1", key, "%s %s" % (r[1], got), "%s is declared as JNA `%s` %s but the Rust type %s is %s (width / pointer-size mismatch)" % (prim, r[1], got, T._PRIM_MAP[prim], w), C.loc(f, r[2]))
+    # Kotlin unsigned wrappers / conversions: the wrapper class and the .toUxxx() conversion chosen for a primitive have that primitive's width
+    def text_of(r):
+        if not r:
+            return None
+        if r[0] == "str":
+            return r[1]
+        if r[0] == "expr":
+            return " ".join(str(x.get("v")) for x in C.walk(r[1]) if x.get("k") == "lit" and x.get("t") in ("str", "bytestr")) + " " + \
+                " ".join(x.get("src", "") for x in C.walk(r[1]) if x.get("k") == "macro")
+        return None
+    KT_CONV = {"toUByte": 8, "toUShort": 16, "toUInt": 32, "toULong": 64, "toByte": 8, "toShort": 16, "toInt": 32, "toLong": 64}
+    for fname in ("fmt_unsigned_primitive_ffi_cast", "fmt_primitive_to_native_conversion", "fmt_unsized_conversion"):
+        kfun = tool.fn("kotlin::formatter::KotlinFormatter::" + fname, optional=True)
+        if not kfun:
+            ck.bad("R1", "kotlin::%s/anchor" % fname, "function not found", None)
+            continue
+        tb, _ = T.prim_table(kfun, adts)
+        for prim in T.ALL_PRIMS:
+            if prim.startswith("Int128"):
+                continue
+            txt = text_of(tb.get(prim)) or ""
+            w = want(prim)
+            key = "kotlin::%s/%s" % (fname, prim)
+            wrappers = re.findall(r"FFI(Uint\d+|Sizet|Isizet)", txt)
+            convs = re.findall(r"\.(to(?:U?)(?:Byte|Short|Int|Long))\(\)", txt)
+            bad = []
+            for wr in wrappers:
+                nat = ntab.get(prim)
+                nat_name = nat[1] if nat and nat[0] == "str" else None
+                if nat_name != "FFI" + wr:
+                    bad.append("wrapper FFI%s but the native field type is %s" % (wr, nat_name))
+            for cv in convs:
+                bits = KT_CONV[cv]
+                wbits = 64 if w[1] == "ptr" else w[1]
+                if bits != wbits or (cv.startswith("toU") != (w[0] == "uint")):
+                    bad.append("conversion .%s() (%d-bit) for a %s" % (cv, bits, w))
+            ck.expect(not bad, "R1", key, "%s %s" % (wrappers, convs), "Kotlin %s(%s): %s" % (fname, prim, "; ".join(bad)), C.loc(kfun))
+
     # default value consistent with native type
     for prim in T.ALL_PRIMS:
         if prim.startswith("Int128"):
